@@ -1,6 +1,11 @@
 import numba
 import numpy as np
-from ..utils import norm_vector, EPSILON
+from ..utils import norm_vector
+
+
+# relative tolerance of geometric decisions, well above the rounding errors
+# of coordinates and well below the accuracy of the contact model
+RELATIVE_TOLERANCE = 1e-12
 
 
 # replaces from numba.np.extensions import cross2d, which seems to have a bug
@@ -17,7 +22,8 @@ def cross2d(a, b):
     cache=True)
 def intersect_two_halfplanes(halfplane1, halfplane2):
     denom = cross2d(halfplane1[2:], halfplane2[2:])
-    if abs(denom) < EPSILON:
+    if abs(denom) <= RELATIVE_TOLERANCE * (
+            np.linalg.norm(halfplane1[2:]) * np.linalg.norm(halfplane2[2:])):
         return np.empty(0, dtype=np.dtype("float"))
     t = cross2d((halfplane2[:2] - halfplane1[:2]), halfplane2[2:]) / denom
     return halfplane1[:2] + halfplane1[2:] * t
@@ -27,7 +33,12 @@ def intersect_two_halfplanes(halfplane1, halfplane2):
     numba.bool_(numba.float64[::1], numba.float64[::1]),
     cache=True)
 def point_outside_of_halfplane(halfplane, point):
-    return cross2d(halfplane[2:], point - halfplane[:2]) < -EPSILON
+    # Points on the boundary belong to the halfplane. The tolerance has to
+    # cover the rounding errors of the operands, otherwise vertices of the
+    # polygon that lie on a third halfplane are dropped at random.
+    tolerance = RELATIVE_TOLERANCE * np.linalg.norm(halfplane[2:]) * (
+        np.linalg.norm(point) + np.linalg.norm(halfplane[:2]))
+    return cross2d(halfplane[2:], point - halfplane[:2]) < -tolerance
 
 
 @numba.njit(
@@ -46,8 +57,8 @@ def intersect_halfplanes(halfplanes):
     points : list
         Points of the polygon.
     """
-    # reserve more space than required, there might be duplicates
-    points = np.empty((3 * len(halfplanes), 2))
+    # reserve space for all pairs of halfplanes, there might be duplicates
+    points = np.empty((len(halfplanes) * (len(halfplanes) - 1) // 2 + 1, 2))
     n_intersections = 0
     for i in range(len(halfplanes)):
         for j in range(i + 1, len(halfplanes)):
